@@ -11,6 +11,12 @@ CHECKS = {
     note="Trusted: TLC, the Go driver's faithful logging of inputs/outputs (input copied before the in-place call). Bounded: list length <= 3 (quick) / 4 (thorough) exhaustive, random beyond.",
     technique="TLA+ P-spec/I-spec, TLC exhaustive refinement check + TLC trace validation of real calls",
     engine="ChunkMerge"),
+ "C20": dict(
+    category="model_checking", design_ref="DESIGN.md §5 C20",
+    text="Tf8.tla states the ITF-8/LTF-8 bit layouts from the CRAM text; TLC checks the layout's self-consistency (round trip, announced length, slot partition) on a boundary-stratified value set, validates every recorded Encode/Len/Decode/stream-reader call of the real code against it, and exports the layout table that drives an independent interpreter for a strided (quick) or exhaustive (thorough) sweep over all 2^32 ITF-8 values and 4*10^7 stratified LTF-8 values.",
+    note="Trusted: TLC, the 30-line table interpreter (cross-checked by the TLC-validated sample; its disagreements are re-judged by TLC). High nibble of ITF-8's fifth byte unconstrained.",
+    technique="TLA+ layout spec, TLC self-consistency + TLC trace validation of real codec calls + spec-exported table sweep",
+    engine="Tf8"),
 }
 NA_REASON = "check not built yet in this round (specification work in progress; see DESIGN.md §10 build order)"
 
@@ -41,8 +47,9 @@ def main():
         not_applicable=na)
     json.dump(m, open(os.path.join(V, "MANIFEST.json"), "w"), indent=1)
 
-HOOK_COMMITS = []
+HOOK_COMMITS = ["4b6c86a"]
 ENGINES = [
+ dict(name="Tf8", path="spec/Tf8", serves_properties=["C20"], kind_free_text="TLA+ bit-layout spec + TLC MC + trace validation + exported-table sweep"),
  dict(name="ChunkMerge", path="spec/ChunkMerge", serves_properties=["C17"], kind_free_text="TLA+ MergeP/MergeI + TLC MC + trace validation"),
 ]
 if __name__ == "__main__":
